@@ -571,8 +571,23 @@ func init() {
 					}
 				}
 			}
+			// a read that is reachable only over the `RootDir == ""` edge belongs to the unconfined
+			// configuration (an early `if lib.RootDir == "" { read; return }` arm): the confinement
+			// obligations are about the read(s) that can run with a root set
+			if len(reads) > 1 {
+				var confined []*ssa.Call
+				for _, r := range reads {
+					if re := rootEmptyEdges(fn); len(re) > 0 && !ssaReachableAvoiding(fn, r.Block(), re) {
+						continue
+					}
+					confined = append(confined, r)
+				}
+				if len(confined) >= 1 {
+					reads = confined
+				}
+			}
 			if len(reads) != 1 {
-				add("file read", Violated, fmt.Sprintf("expected exactly one os file read, found %d", len(reads)), token.NoPos)
+				add("file read", Violated, fmt.Sprintf("expected exactly one os file read that can run with a root set, found %d", len(reads)), token.NoPos)
 				return obs
 			}
 			rd := reads[0]
@@ -850,9 +865,11 @@ func init() {
 					}
 					obs = append(obs, Obligation{Rule: "CONFINE.true-location", Func: u.Name(), Construct: construct, Pos: c.Pos(p), Verdict: verdict, Detail: detail, Nontrivial: true})
 				}
-				var readPath ssa.Value
-				var readCall *ssa.Call
-				nreads := 0
+				type readSite struct {
+					path ssa.Value
+					call *ssa.Call
+				}
+				var reads []readSite
 				for _, b := range fn.Blocks {
 					for _, in := range b.Instrs {
 						call, ok := in.(*ssa.Call)
@@ -860,74 +877,82 @@ func init() {
 							continue
 						}
 						if staticCalleeIs(&call.Call, "os", "ReadFile") {
-							readPath, readCall = call.Call.Args[0], call
-							nreads++
+							reads = append(reads, readSite{call.Call.Args[0], call})
 						}
 						if staticCalleeIs(&call.Call, "io/fs", "ReadFile") {
-							readPath, readCall = call.Call.Args[1], call
-							nreads++
+							reads = append(reads, readSite{call.Call.Args[1], call})
 						}
 					}
 				}
-				if nreads != 1 {
-					add("single read", Violated, fmt.Sprintf("expected exactly one file read, found %d", nreads), token.NoPos)
+				if len(reads) == 0 {
+					add("single read", Violated, "no file read found", token.NoPos)
 					continue
 				}
-				// every return that hands back data (3rd result derived from the read) reports readPath as location
+				// each read (one per configuration arm, usually one in all) is judged on its own
 				nret := 0
-				for _, b := range fn.Blocks {
-					for _, in := range b.Instrs {
-						r, ok := in.(*ssa.Return)
-						if !ok || len(r.Results) != 4 {
-							continue
-						}
-						if !derivesFrom(r.Results[2], func(x ssa.Value) bool { return x == ssa.Value(readCall) }, 4, map[ssa.Value]bool{}) {
-							continue // error return without data
-						}
-						nret++
-						if r.Results[1] == readPath {
-							add(fmt.Sprintf("location returned#%d", nret), Proved, "the reported location is the value passed to the read", r.Pos())
-						} else {
-							add(fmt.Sprintf("location returned#%d", nret), Violated, "the location reported for the loaded file is not the path that was read: nested relative loads from that file resolve against the wrong directory", r.Pos())
-						}
+				for ri, rdSite := range reads {
+					readPath, readCall := rdSite.path, rdSite.call
+					suffix := ""
+					if ri > 0 {
+						suffix = fmt.Sprintf(" (read %d)", ri+1)
 					}
-				}
-				if nret == 0 {
-					add("location returned", Undecided, "no return carrying the read data found", token.NoPos)
-				}
-				// the read path derives from Join(Dir(ctx.Location()), loc)
-				isJoin := func(x ssa.Value) bool {
-					j := asCall(x)
-					if j == nil || !staticCalleeIs(&j.Call, "path/filepath", "Join") {
-						return false
-					}
-					hasDir, hasLoc := false, false
-					check := func(a ssa.Value) {
-						if derivesFrom(a, func(y ssa.Value) bool {
-							d := asCall(y)
-							if d == nil || !staticCalleeIs(&d.Call, "path/filepath", "Dir") {
-								return false
+					// every return that hands back data (3rd result derived from the read) reports readPath as location
+					nthis := 0
+					for _, b := range fn.Blocks {
+						for _, in := range b.Instrs {
+							r, ok := in.(*ssa.Return)
+							if !ok || len(r.Results) != 4 {
+								continue
 							}
-							return derivesFrom(d.Call.Args[0], func(z ssa.Value) bool {
-								zc := asCall(z)
-								return zc != nil && zc.Call.IsInvoke() && zc.Call.Method.Name() == "Location"
-							}, 3, map[ssa.Value]bool{})
-						}, 4, map[ssa.Value]bool{}) {
-							hasDir = true
-						}
-						if len(fn.Params) >= 3 && derivesFrom(a, func(y ssa.Value) bool { return y == ssa.Value(fn.Params[2]) }, 3, map[ssa.Value]bool{}) {
-							hasLoc = true
+							if !derivesFrom(r.Results[2], func(x ssa.Value) bool { return x == ssa.Value(readCall) }, 4, map[ssa.Value]bool{}) {
+								continue // error return without data, or the data of another read
+							}
+							nret++
+							nthis++
+							if r.Results[1] == readPath {
+								add(fmt.Sprintf("location returned#%d", nret), Proved, "the reported location is the value passed to the read", r.Pos())
+							} else {
+								add(fmt.Sprintf("location returned#%d", nret), Violated, "the location reported for the loaded file is not the path that was read: nested relative loads from that file resolve against the wrong directory", r.Pos())
+							}
 						}
 					}
-					for _, a := range j.Call.Args {
-						check(a)
+					if nthis == 0 {
+						add("location returned"+suffix, Undecided, "no return carrying the read data found", token.NoPos)
 					}
-					return hasDir && hasLoc
-				}
-				if derivesFrom(readPath, isJoin, 12, map[ssa.Value]bool{}) {
-					add("joined with loader's directory", Proved, "the read path derives from filepath.Join(filepath.Dir(ctx.Location()), loc)", readCall.Pos())
-				} else {
-					add("joined with loader's directory", Violated, "the read path does not derive from Join(Dir(ctx.Location()), loc): relative locations no longer resolve against the loading file's directory", readCall.Pos())
+					// the read path derives from Join(Dir(ctx.Location()), loc)
+					isJoin := func(x ssa.Value) bool {
+						j := asCall(x)
+						if j == nil || !staticCalleeIs(&j.Call, "path/filepath", "Join") {
+							return false
+						}
+						hasDir, hasLoc := false, false
+						check := func(a ssa.Value) {
+							if derivesFrom(a, func(y ssa.Value) bool {
+								d := asCall(y)
+								if d == nil || !staticCalleeIs(&d.Call, "path/filepath", "Dir") {
+									return false
+								}
+								return derivesFrom(d.Call.Args[0], func(z ssa.Value) bool {
+									zc := asCall(z)
+									return zc != nil && zc.Call.IsInvoke() && zc.Call.Method.Name() == "Location"
+								}, 3, map[ssa.Value]bool{})
+							}, 4, map[ssa.Value]bool{}) {
+								hasDir = true
+							}
+							if len(fn.Params) >= 3 && derivesFrom(a, func(y ssa.Value) bool { return y == ssa.Value(fn.Params[2]) }, 3, map[ssa.Value]bool{}) {
+								hasLoc = true
+							}
+						}
+						for _, a := range j.Call.Args {
+							check(a)
+						}
+						return hasDir && hasLoc
+					}
+					if derivesFrom(readPath, isJoin, 12, map[ssa.Value]bool{}) {
+						add("joined with loader's directory"+suffix, Proved, "the read path derives from filepath.Join(filepath.Dir(ctx.Location()), loc)", readCall.Pos())
+					} else {
+						add("joined with loader's directory"+suffix, Violated, "the read path does not derive from Join(Dir(ctx.Location()), loc): relative locations no longer resolve against the loading file's directory", readCall.Pos())
+					}
 				}
 			}
 			return obs
